@@ -46,12 +46,15 @@ func NewClientIO(
 		lastExecutedSeqNum: make(map[uint32]uint64),
 	}
 	clientpb.RegisterClientServer(srv.srv, srv)
+	// The committer adds one ExecuteEvent per committed block, in chain order, and a replica that catches
+	// up commits many blocks at once. The event queue is bounded and drops its oldest entries when full,
+	// so these handlers run when the event is added: no committed command is lost and the order is kept.
 	eventloop.Register(el, func(event clientpb.ExecuteEvent) {
 		srv.Exec(event.Batch)
-	})
+	}, eventloop.UnsafeRunInAddEvent())
 	eventloop.Register(el, func(event clientpb.AbortEvent) {
 		srv.Abort(event.Batch)
-	})
+	}, eventloop.UnsafeRunInAddEvent())
 	return srv
 }
 
